@@ -89,6 +89,10 @@ func (p *Prog) DescribeFuncValue(v ssa.Value) string {
 				// from a parameter of the enclosing function is what a closure
 				// would have captured
 				if st := p.onceStoredField(x); st != nil {
+					// (built inside a literal: the stored value is itself a captured parameter)
+					if d := p.DescribeFuncValue(st.Val); strings.HasPrefix(d, "freevar:") {
+						return d
+					}
 					if q, isP := st.Val.(*ssa.Parameter); isP {
 						for _, a := range p.Anchors(x.Parent()) {
 							for e := p.Encloser(a); e != nil; e = p.Encloser(e) {
